@@ -58,6 +58,14 @@ def schemata():
     S.append(('dynamic', "p(1..2) :- 'a.", "p(1) :- 'a.\np(2) :- 'a."))
     S.append(('always', 'p(X) :- X = 1..2, q(X).', 'p(1) :- q(1).\np(2) :- q(2).'))
     S.append(('always', "p((1;2)) :- not 'a.", "p(1) :- not 'a.\np(2) :- not 'a."))
+    # ... with primes and classical negation around them (future heads, past and future atoms in bodies, look-ahead constraints)
+    for part in ('always', 'initial', 'dynamic'):
+        S.append((part, "p'(1;2) :- a.", "p'(1) :- a.\np'(2) :- a."))
+        S.append((part, "-p'(1;2) :- a.", "-p'(1) :- a.\n-p'(2) :- a."))
+        S.append((part, "-p''(1..2) :- not a.", "-p''(1) :- not a.\n-p''(2) :- not a."))
+        S.append((part, "-p'((1;2),3) :- a.", "-p'(1,3) :- a.\n-p'(2,3) :- a."))
+        S.append((part, ":- -q'(1;2), a.\n-q(X) :- d(X), not q(X).", ":- -q'(1), a.\n:- -q'(2), a.\n-q(X) :- d(X), not q(X)."))
+        S.append((part, "r :- not -'q(1;2), a.\n-q(X) :- d(X), not q(X).", "r :- not -'q(1), a.\nr :- not -'q(2), a.\n-q(X) :- d(X), not q(X)."))
     # conditional literals and aggregates (domain predicate d is a fact at every state)
     S.append(('always', 'r :- q(X) : d(X).', 'r :- q(1), q(2).'))
     S.append(('dynamic', "r :- 'q(X) : d(X).", "r :- 'q(1), 'q(2)."))
